@@ -746,6 +746,9 @@ func genQuery(r *hlib.Rng) (*dns.Msg, string) {
 	case r.Chance(1, 6): // large responses
 		name = []string{"mid.c20.test.", "big.c20.test.", "huge.c20.test.", "manymx.c20.test.", "deep.sub.c20.test."}[r.Intn(5)]
 		class = "large"
+	case r.Chance(1, 6): // several addresses: the listener's max answer decides how many come back
+		name = []string{"two.c20.test.", "four.c20.test.", "six.c20.test.", "four.c20.test."}[r.Intn(4)]
+		class = "addresses"
 	}
 	if r.Chance(1, 3) {
 		name = randCase(r, name)
@@ -759,6 +762,9 @@ func genQuery(r *hlib.Rng) (*dns.Msg, string) {
 	}
 	if class == "whoami-name" && r.Chance(1, 2) {
 		qt = dns.TypeTXT
+	}
+	if class == "addresses" {
+		qt = []uint16{dns.TypeA, dns.TypeA, dns.TypeAAAA, dns.TypeANY}[r.Intn(4)]
 	}
 	if r.Chance(1, 40) {
 		qt = uint16(256 + r.Intn(1000))
